@@ -29,6 +29,7 @@ CONSTANTS
   Focus = TRUE
   Record = TRUE
   ReadOnly = FALSE
+  AckSplit = FALSE
   RM = TRUE
   Slots = 2
   RmUuids = {1, 2}
